@@ -424,6 +424,7 @@ func checkC14(c *Ctx) {
 	// inside a transaction the statements keep running through the statement-cache wrapper: SavePoint / RollbackTo swap it out
 	// for the raw transaction and must put exactly it back (same rule as C04.restore)
 	checkC14TxNilGuard(c)
+	checkC14BeginNoLeak(c)
 	checkPoolRestore(c, c.Rule("C14.tx-wrapper-kept", "SavePoint/RollbackTo put the transaction's statement-cache wrapper back after using the raw transaction", 2))
 }
 
